@@ -211,6 +211,15 @@ fn random_op(rng: &mut Rng, lang: &str, allow_clear: bool, last_q: &mut Option<S
         if rng.chance(1, 4) {
             return Op::Search(if rng.chance(1, 3) { format!("{} ", q) } else { q });
         }
+        if rng.chance(1, 5) && q.chars().count() < 12 {
+            // type-ahead: the previous query plus one more letter (following a known word where possible)
+            let words = ["metal", "mailbox", "yellow", "shirt", "caramel", "melon", "meter", "straße", "microbiologically"];
+            let next = words.iter().find(|w| w.starts_with(q.as_str()) && w.len() > q.len()).and_then(|w| w[q.len()..].chars().next());
+            let c = next.unwrap_or_else(|| *rng.pick(&gen::lower_alphabet(lang)));
+            let longer = format!("{}{}", q, c);
+            *last_q = Some(longer.clone());
+            return Op::Search(longer);
+        }
     }
     let op = random_op_inner(rng, lang, allow_clear);
     if let Op::Search(q) = &op {
@@ -224,7 +233,7 @@ fn random_op_inner(rng: &mut Rng, lang: &str, allow_clear: bool) -> Op {
         // the same title again with another rating (duplicates, and re-adds after a clear)
         return Op::Add("metal mailbox".to_string(), rng.below(9));
     }
-    let words = ["metal", "mailbox", "yellow", "shirt", "t", "wi", "fi", "the", "für", "ёлка", "a", "t-shirt", "straße", "microbiologically-engineered"];
+    let words = ["metal", "mailbox", "yellow", "shirt", "t", "wi", "fi", "the", "für", "ёлка", "a", "t-shirt", "straße", "microbiologically-engineered", "caramel", "melon"];
     let pickw = |rng: &mut Rng| -> String { if rng.chance(1, 3) { gen::any_word(rng, lang) } else { rng.pick(&words).to_string() } };
     match rng.below(if allow_clear { 12 } else { 11 }) {
         0 | 1 | 2 | 3 => {
@@ -295,12 +304,27 @@ impl History {
         let mut titles: Vec<String> = vec![];
         let mut next_id = 1usize;
         let mut shown: Vec<String> = vec![];
+        // record ids are arbitrary usize values: a third of the cases uses boundary values (0-based counters
+        // beyond 2^32, 2^63 = isize::MIN as a bit pattern, usize::MAX downwards)
+        let id_kind = cx.rng.below(12);
+        let mk_id = move |k: usize| -> usize {
+            match id_kind {
+                0 => (1usize << 63).wrapping_add(k - 1),
+                1 => usize::MAX - (k - 1),
+                2 => (1usize << 63) - k,
+                3 => (1usize << 32) + k,
+                _ => k,
+            }
+        };
+        if id_kind < 4 {
+            cx.count("histories with boundary-value record ids");
+        }
         for _ in 0..cx.rng.below(8) {
             let t = c01_title(&mut cx.rng, lang, &corpus);
             let r = cx.rng.below(1usize << 31);
-            shown.push(format!("add({:?},{})", t, r));
+            shown.push(format!("add(id {},{:?},{})", mk_id(next_id), t, r));
             cx.ctx(format!("C01 lang={} limit={} markers=({:?},{:?}) history={:?}", lang, st.store.limit, ml, mr, shown));
-            st.add(&(next_id, t.clone(), r));
+            st.add(&(mk_id(next_id), t.clone(), r));
             titles.push(t);
             next_id += 1;
         }
@@ -311,9 +335,9 @@ impl History {
                 0 | 1 => {
                     let t = c01_title(&mut cx.rng, lang, &corpus);
                     let r = cx.rng.below(1usize << 31);
-                    shown.push(format!("add({:?},{})", t, r));
+                    shown.push(format!("add(id {},{:?},{})", mk_id(next_id), t, r));
                     cx.ctx(format!("C01 lang={} history={:?}", lang, shown));
-                    st.add(&(next_id, t.clone(), r));
+                    st.add(&(mk_id(next_id), t.clone(), r));
                     titles.push(t);
                     next_id += 1;
                 }
@@ -683,8 +707,8 @@ impl Prop for History {
     }
     fn floors(&self) -> Vec<(&'static str, u64, u64)> {
         match self.0 {
-            Which::NoCrash => vec![("searches", 20000, 200000), ("searches with hits", 5000, 50000), ("joined-record hits (two spans from a one-word query)", 50, 500), ("non-ASCII queries", 2000, 20000), ("limit 0", 200, 2000), ("limit 65536", 200, 2000), ("long-text searches", 500, 5000), ("long-text searches with a query over 255 characters", 100, 1000), ("corpus-store searches", 300, 3000), ("long-text cases with a giant word or a 1000+ word title", 20, 200), ("soak searches on one store", 600000, 2500000), ("most searches on one store max ", 66000, 66000), ("soak stores with more than 2^16 records", 2, 8)],
-            Which::NoStale => vec![("search after add following an earlier search", 2000, 20000), ("search after clear following an earlier search", 500, 5000), ("search after limit following an earlier search", 500, 5000), ("empty-query search after a mutation following an earlier search", 1000, 10000), ("exhaustive histories", 20000, 200000), ("histories on a crowded store", 2000, 20000), ("histories that clear and refill a crowded store", 2000, 20000), ("histories growing a store past 64/128/256/512 records with searches in between", 200, 5000), ("soak searches on one store", 1000000, 4000000), ("search repeating the previous query after a mutation", 2000, 20000)],
+            Which::NoCrash => vec![("searches", 20000, 200000), ("searches with hits", 5000, 50000), ("joined-record hits (two spans from a one-word query)", 50, 500), ("non-ASCII queries", 2000, 20000), ("limit 0", 200, 2000), ("limit 65536", 200, 2000), ("histories with boundary-value record ids", 2000, 20000), ("long-text searches", 500, 5000), ("long-text searches with a query over 255 characters", 100, 1000), ("corpus-store searches", 300, 3000), ("long-text cases with a giant word or a 1000+ word title", 20, 200), ("soak searches on one store", 600000, 2500000), ("most searches on one store max ", 66000, 66000), ("soak stores with more than 2^16 records", 2, 8)],
+            Which::NoStale => vec![("search after add following an earlier search", 2000, 20000), ("search after clear following an earlier search", 500, 5000), ("search after limit following an earlier search", 500, 5000), ("empty-query search after a mutation following an earlier search", 1000, 10000), ("exhaustive histories", 20000, 200000), ("histories on a crowded store", 2000, 20000), ("histories that clear and refill a crowded store", 2000, 20000), ("histories growing a store past 64/128/256/512 records with searches in between", 200, 5000), ("histories growing a store past 1024 records with searches in between", 60, 1500), ("soak searches on one store", 1000000, 4000000), ("search repeating the previous query after a mutation", 2000, 20000)],
             Which::Registry => vec![("observations", 20000, 200000), ("observations with >= 2 live ids holding results", 2000, 20000), ("destroy", 300, 3000), ("searches", 3000, 30000), ("histories over 4-20 store ids", 1000, 10000), ("bursts of 45-120 records", 300, 3000)],
         }
     }
@@ -713,17 +737,21 @@ impl Prop for History {
                     last_q = match ops.last() { Some(Op::Search(q)) => Some(q.clone()), _ => None };
                     cx.count("histories on a crowded store");
                 }
-                if cx.tier != Tier::Miri && cx.rng.chance(1, 40) {
+                if cx.tier != Tier::Miri && cx.rng.chance(1, 50) {
                     // grow the store across the 64 / 128 / 256 / 512 record marks with a search at each step
                     let words = ["metal", "mailbox", "yellow", "shirt", "meter", "wi-fi"];
                     let mut k = cx.rng.range(55, 62);
                     for _ in 0..k {
                         ops.push(Op::Add(format!("{} {}", cx.rng.pick(&words), cx.rng.pick(&words)), cx.rng.below(7)));
                     }
-                    while k < 520 {
+                    let target = *cx.rng.pick(&[520usize, 520, 520, 520, 520, 520, 1040, 1040, 2060, 4110]);
+                    if target > 520 {
+                        cx.count("histories growing a store past 1024 records with searches in between");
+                    }
+                    while k < target {
                         ops.push(Op::Add(format!("{} {}", cx.rng.pick(&words), cx.rng.pick(&words)), cx.rng.below(7)));
                         k += 1;
-                        if [63, 64, 65, 127, 128, 129, 255, 256, 257, 511, 512, 513].contains(&k) {
+                        if (6..=12).any(|b| { let p = 1usize << b; k + 1 >= p && k <= p + 1 }) || k % 700 == 0 {
                             ops.push(Op::Search(cx.rng.pick(&["me", "metal", "", "wifi"]).to_string()));
                         }
                     }
